@@ -647,6 +647,13 @@ func init() {
 			bc := &BCase{Prop: "C17"}
 			bc.Kind = rapid.SampledFrom([]string{"arrbatch", "arrbatch", "bytes", "mapbatch", "mapbatch", "copy", "copy"}).Draw(t, "kind")
 			bc.Cfg.Slab = rapid.SampledFrom(slabs).Draw(t, "slab")
+			if rapid.IntRange(0, 5).Draw(t, "slabq") == 0 {
+				hi := uint32(2100)
+				if thorough() {
+					hi = 32768
+				}
+				bc.Cfg.Slab = rapid.Uint32Range(256, hi).Draw(t, "slabu")
+			}
 			bc.Cfg.Keys = rapid.SampledFrom([]int{12, 64, 300}).Draw(t, "keys")
 			bc.Seed = rapid.Uint64Range(0, 1000).Draw(t, "seed")
 			switch bc.Kind {
